@@ -87,6 +87,31 @@ CHECKS.update({
    tech="Lean 4 proof (first-extremum specs; potential functions for the DFDT and L-method refinement loops) + exact oracle-fed differential correspondence",
    ref="DESIGN.md §3 C09"),
 })
+CHECKS.update({
+ 'C16': dict(
+   text="Lean theorems over Q for all vectors: rss/mse/smape symmetric; rss, mse, rmspe^2, rmsle^2 (any log), rpd, smape >= 0 and = 0 at y = y_hat; smape_le_two; r2_le_one, r2_self; "
+        "adjust_def/adjust_le; fit_through_ends, lineQ_head/getLast, fit_vertical; corrSq_nonneg, corrSq_le_one (list Cauchy-Schwarz). Tie: the exact-Q value of every metric is compared "
+        "with metrics.* / linear_fit.* on vector pairs y != y_hat under a cancellation-scaled 1e-9 tolerance (squares for rooted metrics, np.log values supplied), plus bit-wise predicates "
+        "(symmetry, zeros, bounds, wrappers == metrics(y, m*x+b), best-fit R2 == squared Pearson correlation).",
+   note=TB + " IEEE rounding is not modelled: 'to within floating-point rounding' is the tolerance above on dyadic inputs. log is a parameter of the RMSLE theorems.",
+   tech="Lean 4 proof (ordered-field algebra over Q with single Mathlib modules) + Layer-N value correspondence with tolerance",
+   ref="DESIGN.md §3 C16"),
+ 'C17': dict(
+   text="Lean theorems over Q: perpSq is the minimum over the whole line and shortestSq the minimum over the closed segment of the squared distance (both attained; a = b case); "
+        "IoU symmetric, in [0,1], 1 for identical non-degenerate rectangles, 0 for disjoint ones; Menger curvature^2 symmetric under all permutations, 0 iff collinear, = 1/circumradius^2 "
+        "(existence of an equidistant centre); rankOf is a permutation of 0..n-1 that orders the values (stable). Tie: exact-Q values vs linear_fit.shortest/perpendicular_distance_*, "
+        "knee_ranking.rect_overlap, menger.menger_curvature, postprocessing.triangle_area under tolerance; rank exact; sub-range and symmetry predicates on the real code.",
+   note=TB + " Square roots are avoided by comparing squares; rounding is the stated tolerance.",
+   tech="Lean 4 proof (Lagrange identity, field_simp/ring/nlinarith over Q) + Layer-N value correspondence with tolerance",
+   ref="DESIGN.md §3 C17"),
+ 'C18': dict(
+   text="Lean theorems for every x-sorted curve over Q, n>=2: hullLower/hullUpper_indices (strictly increasing chain 0..n-1), _strict_turns, _supports (EVERY input point on or above / below EVERY "
+        "chain edge line - the full hull property, via exact orientation identities), hullUpper_eq_reflect; grahamScan_nodup_bounded, popGraham_nonempty. Tie: exact comparison of "
+        "graham_scan_lower/upper/graham_scan with the model on integer/dyadic coordinates + brute-force hull specification on the real output (extreme vertices, boundary only, clockwise order in general position).",
+   note=TB + " graham_scan's full vertex-set characterisation is decided relationally by the brute-force specification on sampled point sets, not by a theorem (partial for that clause).",
+   tech="Lean 4 proof (stack = hull-of-prefix invariant with ring-checked orientation identities) + exact differential correspondence + brute-force relational spec",
+   ref="DESIGN.md §3 C18"),
+})
 NA = {}
 props = [json.loads(l) for l in open(os.path.join(V, 'properties.jsonl'))]
 checks = []
